@@ -482,7 +482,10 @@ def run(ctx):
                     "clang/ASan/UBSan (TSan in the thorough tier)"]
     ctx.assumptions += ["getpagesize() is a power of two <= 2^63 (stack_size_ok)", "PTHREAD_STACK_MIN < 2^64",
                         "uv_hrtime() < 2^64 ns, i.e. < 584 years of uptime (hrtime_exact)"]
-    lean_ok = ctx.require_lean(["UvModel.Props.C20"])
+    ctx.trusted += ["tools/gen_lean.py (clang AST -> Lean for the loop-free kernels thread_stack_size, cond_deadline, the try*/timedwait/barrier return-code tables) and UvModel/CSem.lean"]
+    # Tie A: regenerate the kernels from /repo; GenEq/C20 re-proves them equal to ThreadArith
+    gen_ok = ctx.gen_lean(need=["C20"])
+    lean_ok = ctx.require_lean(["UvModel.GenEq.C20", "UvModel.Props.C20"]) and gen_ok
     sexe = ctx.harness("c20_scripted", ["harness/c20_threads.c"])
     rexe = ctx.harness("c20_real", ["harness/c20_threads.c"], extra=["-DC20_REAL"])
     if ctx.replay:
